@@ -29,6 +29,60 @@ add("C14", "P", "exploration",
     "every Food series, headline and herd dictionaries of the returned Interpreter.",
     "seeded job-order/fault histories in one process vs. fresh-process reference, exact digest comparison", "DESIGN.md 5/C14")
 
+add("C01", "P", "exploration",
+    "Every LP the real pipeline solves in seeded histories (all option families, horizons 48..120, overrides, country and world "
+    "jobs) is audited against an independent monthly ledger built from the captured supplies only (stored food, crops, meat, SCP, "
+    "sugar, seaweed growth ledger, non-negativity, exhaustion, charge equalities / ceilings / monotone feed). The solver channel "
+    "is explored: real CBC, or a seeded random vertex of the optimal face (HiGHS stand-in), plus fail-stop solver faults. Sampling.",
+    "Trusted: the ledger re-implementation in sim/monitors.py (written from the property text), row-scaled tolerance 1e-6, HiGHS as "
+    "a legal stand-in for CBC in vertex mode. Known finding F01a (meat eaten before slaughter) is suppressed only when the documented rule holds.",
+    "seeded histories on the real pipeline with solver-vertex/fault exploration, independent ledger-audit monitor", "DESIGN.md 5/C01")
+add("C02", "P", "exploration",
+    "Workload-driven reference-model check: for every LP instance that real seeded runs produce (round-2/3 instances only exist "
+    "inside real runs) the reported optimum is compared (5e-5 relative) with an LP formulated independently in matrix form "
+    "(prefix-sum ledgers, no stock variables, intake caps, charges, pins, objective) and solved by HiGHS; a second reference with "
+    "the physical meat ledger decides physical achievability. The simulator contributes instance supply and fail-stop relaxation "
+    "only: the optimum does not depend on schedule or vertex.",
+    "Trusted: the reference formulation (sim/reflp.py) and HiGHS; measured agreement with the code 1.4e-7 relative over hundreds of LPs.",
+    "reference-model oracle (independent LP, different solver) riding on seeded simulated runs", "DESIGN.md 5/C02")
+add("C03", "P", "exploration",
+    "Relation over the recorded three-round history of seeded jobs (threshold T randomised 0..100, cbc or random optimal vertex, "
+    "buggified round-2 skip): starving => no feed and final >= no-feed round; round 1 reaches T => final >= T; feed/biofuel within an "
+    "independent demand-schedule model and zero from the shut-off month, in every round and month. Sampling.",
+    "Trusted: demand model (annual/12*4e6/1e9 until shut-off), slack eps=max(0.1,1e-3*T). Three recorded class findings (F02, F03) are "
+    "matched by mechanism tags so that other failures of the same clauses still alarm.",
+    "seeded histories with solver-vertex exploration and buggified branches; history-relation monitor", "DESIGN.md 5/C03")
+add("C04", "P", "exploration",
+    "For every round of seeded jobs: each reported contribution is recomputed from raw variable values, headline = min over months of "
+    "their sum, headline within 0.01 % of the optimiser's optimum, crop split adds up, and the CSV read back through the simulated FS "
+    "when interpret_results returns equals the returned series exactly; at the end of each history every path holds its last "
+    "writer's numbers. Faults: result-write errors and short writes (job must raise), clock jumps between the six clock reads, "
+    "shared / timestamped / odd titles, solver faults, alternative optimal vertices.",
+    "Trusted: pandas round-trip parsing, the recomputation in sim/monitors.py, SimFS ordering of writes.",
+    "seeded histories with disk/clock/solver fault injection; recomputation + read-back monitor", "DESIGN.md 5/C04")
+add("C05", "P", "exploration",
+    "Every herd run of seeded jobs is paired (through the object handed to init_meat_and_dairy_and_feed_from_breeding) with the series "
+    "the optimiser of that round received: meat month by month (rounds 1, 3) or in total (round 2) and milk against an independent "
+    "per-head yield table x slaughter / herd lists; charge >= feed eaten; grass within supply; zero charge => zero feed. The round-3 "
+    "herd run consumes the vertex-dependent round-2 allocation; table-read faults on the 15 reads per job.",
+    "Trusted: per-head table written from the documentation (validated to 1e-15 on the unchanged tree).",
+    "seeded histories with solver-vertex exploration and table-read faults; independent yield-table monitor", "DESIGN.md 5/C05")
+add("C16", "P", "exploration",
+    "Batch liveness over the fixed grid (164 countries + world) x (13 shipped YAML scenarios, 12+5 manuscript presets, single-option "
+    "variations of two bases each = 14995 cells): cells run in long histories inside long-lived processes, with 0-2 injected faults "
+    "on the first jobs; every non-faulted job must complete with all built-in validators passing and a finite, non-negative headline, "
+    "in particular every job after the last fault. Quick samples ~900 cells; thorough enumerates the whole grid (exhaustive: true).",
+    "Trusted: real CBC. Cells that genuinely fail are listed one by one in known_findings.jsonl (identity = country + preset).",
+    "long seeded job histories with early fault injection (progress after faults stop); grid enumeration in the thorough tier", "DESIGN.md 5/C16")
+add("C18", "P", "exploration",
+    "The hand-off objects of seeded real runs are captured at the helper boundaries: minimum human consumption sums to min(no-feed "
+    "result, T) each month, is bounded by round-1 consumption and filled in the documented priority order; re-timed meat keeps its "
+    "total, stays non-negative and at or above the no-feed level; the final adjustment never lowers feed/biofuel nor raises one above "
+    "max(input, demand). The round-1 vertex (cbc or seeded random optimal vertex) determines every hand-off; a buggified later-shifted "
+    "round-2 meat series gives the re-timing helper work to do. The 'arbitrary arrays' quantifier is not covered (N/A clause).",
+    "Trusted: arithmetic in sim/monitors.py; 1e-9 relative.",
+    "seeded histories with solver-vertex exploration and buggified hand-offs; boundary-capture monitor", "DESIGN.md 5/C18")
+
 NOT_APPLICABLE = [
     {"property_id": "C10", "reason": "pure function of (value, unit names, four settings); nothing to schedule, fail or interleave - property-based enumeration is the right tool, outside this technique family (DESIGN.md 6)"},
     {"property_id": "C12", "reason": "relates the optimum of one LP to optima of perturbed copies: counterfactual re-solves of a pure function, not behaviour under any schedule or fault (DESIGN.md 6)"},
